@@ -654,3 +654,54 @@ def func_level_first(F):
     if not ok:
         r.violate("%s | exit before entry" % rs["path"], F.loc(rs, X), "function-exit resolution runs before function-entry resolution: where both inject at the same index the exit code (and the wrapper's `end`) precede the entry code and the wrapper `block`")
     return r
+
+
+def modifier_reset(F):
+    """R-MODIFIER-RESET: FunctionModifier::inject dispatches on the *function-level* mode (a set func_entry/func_exit mode
+    sends the operator to the function's entry/exit list, not to the instruction).  The modifier handed out by
+    Functions::get_fn_modifier — which the resolver itself uses to lower special instrumentation — must therefore start with
+    that mode cleared and with the recorded entry/exit bodies intact: on every path to FunctionModifier::init the function's
+    instr_flag has had finish_instr() applied (it clears current_mode only) and nothing else of instr_flag is written."""
+    from vlib.facts import uncond_before
+    r = RuleResult("R-MODIFIER-RESET",
+                   "Functions::get_fn_modifier clears the function-level mode (instr_flag.finish_instr()) before every FunctionModifier::init and writes nothing else of the function's instr_flag")
+    fn = F.one_fn(name="get_fn_modifier", self_adt="Functions")
+    r.analysed.append(fn["path"])
+    inits = [c for c in walk(fn["body"]) if c.get("k") == "Call" and (c.get("callee") or "").split("::")[-1] == "init" and "FunctionModifier" in (c.get("callee") or "")]
+    if not inits:
+        r.undecided("get_fn_modifier: FunctionModifier::init call not found (the modifier is built some other way)")
+        return r
+    resets = [c for c in walk(fn["body"]) if c.get("k") == "MethodCall" and c["method"] == "finish_instr" and (place_path(c["recv"]) or "").endswith("instr_flag")]
+    resets += [a for a in walk(fn["body"]) if a.get("k") == "Assign" and (place_path(a["lhs"]) or "").endswith("instr_flag.current_mode")
+               and (peel(a["rhs"]).get("res") or {}).get("variant") == "None"]
+    for c in inits:
+        ok = any(uncond_before(fn["body"], rs_, c)[0] for rs_ in resets)
+        r.ob(ok, {"FunctionModifier::init preceded by instr_flag.finish_instr()": ok})
+        if not ok:
+            r.violate("%s | mode not reset" % fn["path"], F.loc(fn, c),
+                      "get_fn_modifier hands out a FunctionModifier without clearing the function-level mode first: while a func_entry/func_exit mode lingers, everything injected through the modifier (including the bodies the resolver lowers) goes to the function's entry/exit list")
+    # finish_instr itself: leaving a mode touches the mode and nothing that was recorded (an empty alternate is a removal,
+    # not garbage)
+    for fi in F.fns:
+        if fi["name"] != "finish_instr" or fi.get("body") is None or not (fi.get("self_adt") or "").endswith(("::InstrumentationFlag", "::FuncInstrFlag")):
+            continue
+        r.analysed.append(fi["path"])
+        writes = set()
+        for x in walk(fi["body"]):
+            if x.get("k") in ("Assign", "AssignOp"):
+                writes.add(place_path(x["lhs"]) or "?")
+            if x.get("k") == "MethodCall" and x["method"] in ("clear", "take", "push", "insert", "remove", "truncate", "retain", "pop", "replace", "get_or_insert_default", "get_or_insert_with") and (place_path(x["recv"]) or "").startswith("self."):
+                writes.add((place_path(x["recv"]) or "?") + "." + x["method"] + "()")
+        okf = writes == {"self.current_mode"}
+        r.ob(okf, {"finish_instr of": (fi.get("self_adt") or "").split("::")[-1], "writes": sorted(writes)})
+        if not okf:
+            r.violate("%s | writes %s" % (fi["path"], "+".join(sorted(writes - {"self.current_mode"})) or "nothing"), F.loc(fi),
+                      "%s::finish_instr writes %s: leaving an instrumentation mode must reset `current_mode` and keep every recorded body (before/after/alternate, entry/exit) as it is" % ((fi.get("self_adt") or "").split("::")[-1], sorted(writes)))
+    for a in walk(fn["body"]):
+        if a.get("k") in ("Assign", "AssignOp"):
+            pp = place_path(a["lhs"]) or ""
+            if pp.endswith(".instr_flag") or ".instr_flag.entry" in pp or ".instr_flag.exit" in pp or pp.endswith("instr_flag.has_special_instr"):
+                r.ob(False, {"write": pp})
+                r.violate("%s | writes %s" % (fn["path"], pp.split(".", 1)[-1]), F.loc(fn, a),
+                          "get_fn_modifier overwrites `%s`: entry/exit probe bodies (or the special-instrumentation flag) recorded earlier are discarded when a modifier is requested" % pp)
+    return r
